@@ -5,6 +5,7 @@ import (
 	"flag"
 	"fmt"
 	"math/rand"
+	"runtime"
 	"sync"
 	"sync/atomic"
 	"testing"
@@ -28,6 +29,36 @@ type StressRound struct {
 	Addrs   int   `json:"addrs"`
 	Workers int   `json:"workers"`
 	Cycles  int   `json:"cycles"`
+	// Dup > 0: about one release in Dup is made by two to four goroutines that
+	// call one and the same done func at the same moment (it counts once).
+	Dup int `json:"dup,omitempty"`
+}
+
+// releaseTogether calls done from n goroutines released by a spin barrier.
+func releaseTogether(done func(), n int, onPanic func(any)) {
+	var wg sync.WaitGroup
+	var ready, goNow atomic.Int32
+	for g := 0; g < n; g++ {
+		wg.Add(1)
+		go func() {
+			defer wg.Done()
+			defer func() {
+				if p := recover(); p != nil {
+					onPanic(p)
+				}
+			}()
+			ready.Add(1)
+			for goNow.Load() == 0 {
+				runtime.Gosched()
+			}
+			done()
+		}()
+	}
+	for ready.Load() < int32(n) {
+		runtime.Gosched()
+	}
+	goNow.Store(1)
+	wg.Wait()
 }
 
 // runStressRound's oracles are local to a holder, hence sound under any
@@ -94,7 +125,13 @@ func runStressRound(r *StressRound) (overlaps int64, err error) {
 					}
 				}
 				holders[a].Add(-1)
-				done()
+				if r.Dup > 0 && rnd.Intn(r.Dup) == 0 {
+					releaseTogether(done, 2+rnd.Intn(3), func(p any) {
+						firstErr.CompareAndSwap(nil, fmt.Errorf("worker %d cycle %d: one of several concurrent calls of the same done func (%s) panicked: %v", w, i, addr, describePanic(p)))
+					})
+				} else {
+					done()
+				}
 				if rnd.Intn(8) == 0 {
 					done() // releasing twice has no effect
 				}
@@ -127,9 +164,15 @@ func TestC16Stress(t *testing.T) {
 	rnd := rand.New(rand.NewSource(*vstat.Seed))
 	for i := 0; i < *stressRounds; i++ {
 		r := &StressRound{Seed: rnd.Int63(), Addrs: 1 + rnd.Intn(2), Workers: 2 + rnd.Intn(3), Cycles: 300}
+		lb := []string{"free-running", fmt.Sprintf("workers-%d", r.Workers)}
+		if i%2 == 1 {
+			// every other round: some releases are concurrent calls of the same done func
+			r.Dup = 4
+			lb = append(lb, "concurrent-calls-of-the-same-done-func")
+		}
 		rec.Current(r)
 		shared, err := runStressRound(r)
-		rec.Case(r, shared > 0, "free-running", fmt.Sprintf("workers-%d", r.Workers))
+		rec.Case(r, shared > 0, lb...)
 		if err != nil {
 			rec.AddViolation(r, "stress", "closed-while-held-or-leaked", "%v", err)
 			t.Fail()
